@@ -144,6 +144,32 @@ def run(ctx):
             one({"type": kind, "kwargs": [[f"{key}_type", empty]]}, [], [], kind + "_rank0")
             one({"type": kind, "kwargs": [[f"{key}_type", {"d": [[key, empty]]}]]}, [], [], kind + "_rank0")
     ctx.compare("nodes", cases, obs, reqs)
+    # identity of the port primitives at every point inference leaves them in: an Output declared with another shape (same
+    # rank, other rank, broadcast-compatible) than what reaches it is re-typed on *both* sides; an Input keeps both sides
+    import nir
+    from core import quiet
+    for _ in range(ctx.n(40, 200)):
+        sh = gen.shape(rng, rank=rng.randrange(1, 4), hi=6)
+        wrong = rng.choice([[x + 1 for x in sh], sh + [1], sh[:-1] or [7], [1] * len(sh), [sh[0]]])
+        form = rng.choice(["ndarray", "list", "tuple", "dict"])
+        decl = {"ndarray": np.array(wrong), "list": list(wrong), "tuple": tuple(wrong), "dict": {"output": np.array(wrong)}}[form]
+        case = {"op": "output_identity_after_inference", "shape": sh, "declared": wrong, "form": form}
+        ctx.case(case); ctx.count("output_identity_after_inference")
+        try:
+            g = nir.NIRGraph(nodes={"i": nir.Input(np.array(sh)), "s": nir.Scale(np.ones(sh)), "o": nir.Output(decl)},
+                             edges=[("i", "s"), ("s", "o")])
+            with quiet():
+                g.infer_types()
+            o = g.nodes["o"]; i = g.nodes["i"]
+            got = {"o_in": _ints(o.input_type.get("input")), "o_out": _ints(o.output_type.get("output")),
+                   "i_in": _ints(i.input_type.get("input")), "i_out": _ints(i.output_type.get("output")),
+                   "graph_out": _ints((g.output_type or {}).get("o", {}).get("output"))}
+        except Exception as e:  # noqa
+            got = {"raised": type(e).__name__}
+        want = {"o_in": sh, "o_out": sh, "i_in": sh, "i_out": sh, "graph_out": sh}
+        if got != want:
+            ctx.violate(case, "after inference an Output / Input node is not the identity on the shape that reaches it",
+                        {"site": "Output", "what": "identity-after-inference", "form": form}, observed=got, required=want)
     # parameters that share their bytes with other parameters of the graph keep their own shapes (hence types)
     import tempfile, shutil
     from props.c01 import big_and_twins
@@ -152,3 +178,7 @@ def run(ctx):
         big_and_twins(ctx, tmpdir, big=False)
     finally:
         shutil.rmtree(tmpdir, ignore_errors=True)
+
+
+def _ints(v):
+    return None if v is None else [int(x) for x in np.asarray(v).ravel()]
